@@ -152,10 +152,10 @@ class XGen:
     def drawing(self):
         r = self.rng
         k = r.random()
-        if k < 0.12 and self.maybe(self.anomalies + 0.1):
+        if k < 0.12 and self.maybe(self.anomalies):
             blip = X("a:blip")                                     # no image
         else:
-            ext = r.choice(["png", "png", "jpeg", "gif", "emf", "PNG"]) if self.maybe(self.anomalies + 0.3) else "png"
+            ext = "emf" if self.maybe(self.anomalies * 0.5) else r.choice(["png", "png", "jpeg", "gif", "PNG"])
             name = "media/image%d.%s" % (len(self.pkg.media) + 1, ext)
             data = bytes(r.randrange(256) for _ in range(r.choice([0, 1, 3, 8, 20])))
             if r.random() < 0.15:
